@@ -187,9 +187,9 @@ func call(f string, a ...Expr) Expr { return Expr{K: "call", V: f, A: a} }
 
 // callsOf lists the function calls producing typ: {name, parameter leaf types…}.
 var callsOf = map[string][][]string{
-	"int":    {{"len", "list"}, {"len", "string"}, {"len", "map"}, {"int", "numstr"}, {"int", "int"}, {"add", "int", "int"}, {"sum", "int", "int", "int"}},
+	"int":    {{"incp", "*int"}, {"addp", "*int", "int"}, {"len", "list"}, {"len", "string"}, {"len", "map"}, {"int", "numstr"}, {"int", "int"}, {"add", "int", "int"}, {"sum", "int", "int", "int"}},
 	"float":  {{"half", "float"}, {"scale", "float", "float"}},
-	"string": {{"upper", "string"}, {"lower", "string"}, {"trim", "string"}, {"string", "int"}, {"string", "fracfloat"}, {"string", "string"}, {"greet", "string"}, {"ctxup", "string"}, {"title", "lowstr"}, {"pick", "bool", "string", "string"}},
+	"string": {{"fmtDate", "*time"}, {"upp", "*string"}, {"pname", "*rec"}, {"typ", "*any"}, {"upper", "string"}, {"lower", "string"}, {"trim", "string"}, {"string", "int"}, {"string", "fracfloat"}, {"string", "string"}, {"greet", "string"}, {"ctxup", "string"}, {"title", "lowstr"}, {"pick", "bool", "string", "string"}},
 	"bool":   {{"isBig", "int"}, {"neg", "bool"}},
 }
 
@@ -200,6 +200,9 @@ func (g *gen) callExpr(t *rapid.T, typ string, nonShared, top bool) Expr {
 	for _, c := range callsOf[typ] {
 		if _, bound := fnVars[c[0]]; bound && g.fn {
 			continue // the data binds this name: calling it is unspecified (the variable shadows the function)
+		}
+		if g.cat != nil && len(c) > 1 && strings.HasPrefix(c[1], "*") {
+			continue // the pointer-typed data lives in the map environments
 		}
 		if funcs[c[0]].shared || nonShared {
 			cands = append(cands, c)
@@ -222,6 +225,10 @@ func (g *gen) callExpr(t *rapid.T, typ string, nonShared, top bool) Expr {
 			}
 		case "lowstr":
 			e.A = append(e.A, Expr{K: "path", V: pick(t, "lowpath", g.c().lowstr)})
+		case "*time", "*int", "*string", "*rec":
+			e.A = append(e.A, Expr{K: "path", V: pick(t, "ptrpath", ptrPaths[pt])})
+		case "*any": // the type-identity function over any pointer path
+			e.A = append(e.A, Expr{K: "path", V: pick(t, "ptrpath", ptrPaths[pick(t, "ptrtype", ptrTypeOrder)])})
 		default:
 			e.A = append(e.A, g.leaf(t, pt, true, top))
 		}
@@ -450,6 +457,7 @@ var pipeInits = []string{
 	"a", "b", "z", "n", "m.k", "xs[1]", "st.Age", "us[1].age", "big",
 	"f", "g", "zf", "m.rate", "fs[0]", "st.Score",
 	"z10", "z08", "z007", "z0s", "sp", "sp2", "spl", "spt",
+	"post.PublishedAt", "pt.at", "ts", "post.Views", "pm.k", `pm['k']`, "ptrs[1]", "pi", "post.Slug", "post.Author", "prec",
 	"s", "h", "e", "num", "pad", "m.name", `m["name"]`, `m['name']`, "m.inner.s", "ss[0]", "st.Name", "st.In.S", "us[0].name",
 	"t", "u", "m.ok", "bs[0]", "st.Ok",
 	"xs", "ss", "fs", "m", "m.inner", "st", "nope",
